@@ -4,7 +4,7 @@ import re
 import subprocess
 
 from . import compdb
-from .prog import AnalysisBroken, key, strip, strip_parens, walk, const_value, enum_name
+from .prog import AnalysisBroken, key, strip, strip_parens, walk, const_value, enum_name, resolve_key
 
 
 def _pushpop(P):
@@ -29,43 +29,74 @@ def _pushpop(P):
     for p in pushes:
         ok = any(f.cfg.postdominates(q["i"], p["i"]) for q in pops) and len(pops) == 1
         out.append(("every path after stack_push passes exactly one stack_pop", ok, "pushpop:balance", f.where(p)))
-    # membership loop
+    # membership test: a loop over stk[0 .. size at entry) comparing the candidate file with strcmp, either inline or
+    # in a predicate helper that receives the stack; its hit branch must skip the recursion
+    def entry_size(fn, e):
+        rk = resolve_key(fn, e)
+        return rk == stk + "->size"
+
+    def skips(fn, branch):
+        for g in walk(branch):
+            if g["k"] == "GotoStmt":
+                lab = [l for l in fn.walk() if l["k"] == "LabelStmt" and l["n"] == g["n"]]
+                if lab and all(lab[0]["l"] > r["l"] for r in rec):
+                    return True
+            if g["k"] in ("ReturnStmt", "ContinueStmt"):
+                return True
+        return False
+
+    def scan_loop(fn, stack_key, need_bound):
+        """(found, bound expression) for a loop in fn that peeks every element of stack_key and strcmp's it."""
+        for n in fn.walk():
+            if n["k"] != "ForStmt" or n["c"][1] is None:
+                continue
+            cond = strip(n["c"][1])
+            if cond is None or cond["k"] != "BinaryOperator" or cond["op"] != "<":
+                continue
+            peeks = [c for c in walk(n["c"][3]) if c["k"] == "CallExpr" and c.get("callee") == "stack_peek_index"
+                     and key(c["c"][1]) == stack_key]
+            cmps = [c for c in walk(n["c"][3]) if c["k"] == "CallExpr" and c.get("callee") == "strcmp"]
+            if peeks and cmps:
+                return n, cond["c"][1], cmps
+        return None, None, None
+
     loop_ok = False
     loop_where = f.where()
-    for n in f.walk():
-        if n["k"] != "ForStmt" or n["c"][1] is None:
-            continue
-        cond = strip(n["c"][1])
-        if cond is None or cond["k"] != "BinaryOperator" or cond["op"] != "<":
-            continue
-        bound = strip(cond["c"][1])
-        peeks = [c for c in walk(n["c"][3]) if c["k"] == "CallExpr" and c.get("callee") == "stack_peek_index" and key(c["c"][1]) == stk]
-        cmps = [c for c in walk(n["c"][3]) if c["k"] == "CallExpr" and c.get("callee") == "strcmp"]
-        if not peeks or not cmps:
-            continue
-        # bound is the stack's size at entry (or its current size)
-        bk = key(bound)
-        bound_ok = bk == stk + "->size"
-        if not bound_ok and bound is not None and bound["k"] == "DeclRefExpr":
-            for v in f.walk():
-                if v["k"] == "VarDecl" and v["n"] == bound["n"] and v.get("c") and v["c"][0] is not None and key(v["c"][0]) == stk + "->size":
-                    bound_ok = True
-        # the hit branch leaves without reaching the recursive call
-        skip_ok = False
-        for i in walk(n["c"][3]):
-            if i["k"] == "IfStmt" and any(c in list(walk(i["c"][0])) for c in cmps):
-                for g in walk(i["c"][1]):
-                    if g["k"] == "GotoStmt":
-                        lab = [l for l in f.walk() if l["k"] == "LabelStmt" and l["n"] == g["n"]]
-                        if lab and all(lab[0]["l"] > r["l"] for r in rec):
-                            skip_ok = True
-                    if g["k"] in ("ReturnStmt",):
-                        skip_ok = True
+    n, bound, cmps = scan_loop(f, stk, True)
+    if n is not None:
+        skip_ok = any(i["k"] == "IfStmt" and any(c in list(walk(i["c"][0])) for c in cmps) and skips(f, i["c"][1]) for i in walk(n["c"][3]))
         dom_ok = all(f.cfg.dominates(n["c"][1]["i"], r["i"]) for r in rec)
-        loop_ok = bound_ok and skip_ok and dom_ok
+        loop_ok = entry_size(f, bound) and skip_ok and dom_ok
         loop_where = f.where(n)
-        if loop_ok:
-            break
+    if not loop_ok:
+        for i in f.walk():
+            if i["k"] != "IfStmt":
+                continue
+            calls = [c for c in walk(i["c"][0]) if c["k"] == "CallExpr" and c.get("callee")]
+            for c in calls:
+                h = P.resolve(f, c["callee"])
+                if h is None or not P.first_party(h):
+                    continue
+                args = c["c"][1:]
+                si = [k for k, a in enumerate(args) if key(a) == stk]
+                if not si or si[0] >= len(h.params):
+                    continue
+                hn, hbound, hcmps = scan_loop(h, h.params[si[0]][0], True)
+                if hn is None:
+                    continue
+                # the helper returns non-zero on a hit
+                hit = any(x["k"] == "IfStmt" and any(cc in list(walk(x["c"][0])) for cc in hcmps) and
+                          any(r["k"] == "ReturnStmt" and r["c"] and const_value(r["c"][0]) not in (None, 0) for r in walk(x["c"][1]))
+                          for x in walk(hn["c"][3]))
+                # its loop bound is the caller's entry size
+                bk = key(hbound)
+                bi = [k for k, q in enumerate(h.params) if q[0] == bk]
+                bound_ok = (bk == h.params[si[0]][0] + "->size" and False) or (bi and bi[0] < len(args) and entry_size(f, args[bi[0]]))
+                negated = False
+                dom_ok = all(f.cfg.dominates(c["i"], r["i"]) for r in rec)
+                if hit and bound_ok and dom_ok and skips(f, i["c"][1]):
+                    loop_ok = True
+                    loop_where = f.where(i)
     out.append(("a loop over %s[0..size at entry) compares the file against every file being expanded, dominates the recursive "
                 "call, and its hit branch skips the recursion" % stk, loop_ok, "pushpop:visited", loop_where))
     for r in rec:
@@ -136,12 +167,12 @@ def r_pool(P, chk):
     nxt = [x for x in add.walk() if x["k"] == "BinaryOperator" and x["op"] == "=" and key(x["c"][0]) == p + "->next"]
     ok = False
     if m and last:
-        size = _norm(key(m[0]["c"][1]))
+        size = _norm(resolve_key(add, m[0]["c"][1]))
         r = strip(last[0]["c"][1])
         if r is not None and r["k"] == "BinaryOperator" and r["op"] == "+":
-            ok = _norm(key(r["c"][1])) == size and key(r["c"][0]) in [key(x["c"][1]) for x in nxt]
+            ok = _norm(resolve_key(add, r["c"][1])) == size and key(r["c"][0]) in [key(x["c"][1]) for x in nxt]
     ob("pool_add_slab: `last` = slab + exactly the number of bytes allocated, `next` = slab", ok, "pool:slab", add.where())
-    mult = m and _norm(key(m[0]["c"][1])).startswith(p + "->object_size*")
+    mult = m and _norm(resolve_key(add, m[0]["c"][1])).startswith(p + "->object_size*")
     ob("pool_add_slab: slab size is object_size x constant (next meets last exactly)", bool(mult), "pool:multiple", add.where())
     # allocate
     p2 = alloc.params[0][0]
@@ -192,8 +223,16 @@ def r_pool(P, chk):
        all(tfree.cfg.dominates(pf[0]["i"], x["i"]) for x in nul), "pool:free-count", tfree.where())
     # token_new allocates from the pool
     tn = P.func("token_new", "token.c")
-    ob("token_new takes its storage from the shared pool", any(key(c["c"][1]) == "token_pool" for c in tn.calls("pool_allocate_object")),
-       "pool:token_new", tn.where())
+    def pool_alloc(fn, depth=0):
+        if any(key(c["c"][1]) == "token_pool" for c in fn.calls("pool_allocate_object")):
+            return True
+        if depth < 2:
+            for c in fn.calls():
+                g = P.resolve(fn, c.get("callee") or "")
+                if g is not None and g.unit is fn.unit and g is not fn and pool_alloc(g, depth + 1):
+                    return True
+        return False
+    ob("token_new takes its storage from the shared pool", pool_alloc(tn), "pool:token_new", tn.where())
     # CLI bracket: counter abstraction over main's CFG
     main = P.func("main", "main.c")
     cfg = main.cfg
@@ -441,7 +480,7 @@ def r_link(P, chk):
                               "known to be the head of its chain (first child, a primitive's head parameter, a fresh node, or the end "
                               "of a walk over prev links): the real head keeps a stale tail, so appends and back-to-front walks start "
                               "at the wrong token" % (f.name, tk))
-    chk.floor(rid, nt, 15, "tail stores")
+    chk.floor(rid, nt, 10, "tail stores")
 
 
 # ---------------------------------------------------------------------------
